@@ -401,6 +401,30 @@ func registerMisc(P *Program) {
 	// fmt: formatting is not the subject of any property; results are marked so that a comparison on them is an error
 	sprintf := func(it *Interp, a []Value) Value {
 		f, _ := a[0].(string)
+		// all-concrete string / integer arguments: format natively (package-level regular expressions and keys are built this way)
+		if len(a) > 1 && !strings.Contains(f, symStrMark) {
+			var goArgs []interface{}
+			ok := true
+			for _, e := range boolSlice(it, a[1]) {
+				if iv, isI := e.(*IfaceV); isI && iv != nil {
+					e = iv.V
+				}
+				switch x := e.(type) {
+				case string:
+					if strings.Contains(x, symStrMark) {
+						ok = false
+					}
+					goArgs = append(goArgs, x)
+				case *big.Int:
+					goArgs = append(goArgs, x)
+				default:
+					ok = false
+				}
+			}
+			if ok {
+				return fmt.Sprintf(f, goArgs...)
+			}
+		}
 		return symStrMark + f
 	}
 	P.reg("fmt.Sprintf", sprintf)
